@@ -964,6 +964,23 @@ def gen_C09(tier, seed):
         p.frame(lf, 'FR', [c])
         p.write(1)
         progs.append(p.build())
+    # sequence numbers that are no positive integer of at most ten digits (keyword, ready-made header, assigned later): refused, or
+    # the field still holds the decimal digits of the number
+    for i, (seq, how) in enumerate([(True, 'kw'), (True, 'set'), (2.5, 'kw'), (2.5, 'set'), (-4, 'set'), (0, 'set'), (10 ** 10, 'set'), ('12', 'set'), (7.0, 'set'), (True, 'ready')]):
+        p = Prog(f'C09-badseq-{i}', {'kind': 'badheaderseq', 'fringe': True, 'how': how})
+        p.file(1, vrl=512)
+        if how == 'kw':
+            lf = p.lf(1, fh_id='BAD-SEQ', fh_seq=seq)
+        elif how == 'ready':
+            lf = p.lf(1, fh_id='BAD-SEQ', fh_seq=seq, header='ready')
+        else:
+            lf = p.lf(1, fh_id='BAD-SEQ')
+            p.set_header(lf, 'sequence_number', seq)
+        p.origin(lf, name='O')
+        c = p.channel(lf, 'CH', data=np.arange(3, dtype='float64'))
+        p.frame(lf, 'FR', [c])
+        p.write(1, valid=False, either=True)
+        progs.append(p.build())
     # header id / sequence number re-assigned on the header object: before the first write, between two writes, in the second of
     # two logical files, after the origin or before it
     for i in range(8):
